@@ -96,6 +96,21 @@ CHECKS = {
         "CylinderSegment, Circle, Polyline; dataframe output not decided; CustomSource has no functional interface.",
         design="3/C07",
     ),
+    "C09": dict(
+        engine="E1+E2",
+        technique="CrossHair (z3) on the real path_padding_param / check_start_type over unbounded integers against a reference model, with a "
+        "reachability twin; SymNum symbolic execution of the real move / rotate / rotate_from_* / position= / orientation= / reset_path "
+        "through the real validators and np.pad with symbolic path contents, each new path entry compared with the documented rule as "
+        "an SMT obligation",
+        text="Bounded symbolic model checking, one inductive step from an arbitrary state: the integer padding arithmetic is confirmed "
+        "over ALL integers by CrossHair; for every (old length N<=3/4, input form, start in [-5,5]/[-7,7] and 'auto', anchor kind) the "
+        "resulting path equals the reference (which old entry each new entry derives from, left composition, rotation about the anchor) "
+        "for all real contents; all rotate_from_* forms equal rotate() with the equivalent rotation; setters pad/end-slice the other path; "
+        "rejected calls raise the input error and leave the state term-identical.",
+        note="Real arithmetic, unit quaternions, rotations compared up to quaternion sign; SciPy's from_rotvec/euler/matrix/mrp conversions are "
+        "uninterpreted (compiled code); path lengths beyond the bound are outside the claim.",
+        design="3/C09",
+    ),
 }
 
 NOT_APPLICABLE = {
